@@ -373,7 +373,7 @@ func genIndependent(g *core.Gen) {
 }
 
 func genPools(g *core.Gen) {
-	for c := 0; c < g.N(130, 1000); c++ {
+	for c := 0; c < g.N(100, 1000); c++ {
 		world := 0
 		if g.R.Chance(1, 4) {
 			world = 1
@@ -618,7 +618,7 @@ func genReorg(g *core.Gen) {
 // genRealPool: a real mempool.TxPool as the source (map order, so only pools
 // whose keys are pairwise distinct).
 func genRealPool(g *core.Gen) {
-	for c := 0; c < g.N(60, 500); c++ {
+	for c := 0; c < g.N(45, 500); c++ {
 		pg := newPoolGen(g.R, c%2)
 		pg.s.src = "pool"
 		if g.R.Chance(1, 3) {
@@ -779,7 +779,7 @@ func genSegwitInactive(g *core.Gen) {
 // above the running weight before / after each transaction in fee order, the
 // fee-rate threshold splits the pool at a random rank, the maximum is far away.
 func genFreeArea(g *core.Gen) {
-	for c := 0; c < g.N(50, 400); c++ {
+	for c := 0; c < g.N(40, 400); c++ {
 		pg := newPoolGen(g.R, 0)
 		pg.randomPool(poolOpts{n: 3 + g.R.Intn(7), childProb: g.R.Intn(30), maxFee: 80000, zeroFeePct: 20, anyKind: c%2 == 0})
 		s := pg.finish(true)
